@@ -67,7 +67,10 @@ func main() {
 	for _, p := range scope {
 		pats = append(pats, coap+"/"+p)
 	}
-	env := append(os.Environ(), "GOFLAGS=-mod=mod", "GOPROXY=off")
+	env := append(os.Environ(), "GOPROXY=off")
+	if os.Getenv("GOFLAGS") == "" {
+		env = append(env, "GOFLAGS=-mod=mod")
+	}
 	mode := packages.NeedName | packages.NeedFiles | packages.NeedSyntax | packages.NeedTypes | packages.NeedTypesInfo | packages.NeedImports
 	load := func(dir string, pats ...string) []*packages.Package {
 		pkgs, err := packages.Load(&packages.Config{Mode: mode, Dir: dir, Env: env}, pats...)
